@@ -200,6 +200,36 @@ func (p *Pkg) fillParseModel(m *parseModel) (kvmCall *ast.CallExpr) {
 			}
 		}
 	}
+	// the element split, generally: the statement that defines the
+	// identifier Set receives as its abbreviation
+	if m.splitAs == nil && m.setCall != nil && len(m.setCall.Args) == 2 && m.loop != nil {
+		ao, vo := identObj(info, m.setCall.Args[0]), identObj(info, m.setCall.Args[1])
+		if ao != nil && vo != nil {
+			ast.Inspect(m.loop, func(n ast.Node) bool {
+				as, ok := n.(*ast.AssignStmt)
+				if !ok || len(as.Rhs) != 1 || len(as.Lhs) < 2 {
+					return true
+				}
+				hasA, hasV := false, false
+				for _, l := range as.Lhs {
+					if o := identObj(info, l); o == ao {
+						hasA = true
+					} else if o == vo {
+						hasV = true
+					}
+				}
+				if hasA && hasV && m.splitAs == nil {
+					if call, ok := as.Rhs[0].(*ast.CallExpr); ok {
+						if fn := calleeOf(info, call); fn != nil {
+							m.splitAs, m.splitFn = as, fn
+							m.abvObj, m.valObj = ao, vo
+						}
+					}
+				}
+				return true
+			})
+		}
+	}
 	return kvmCall
 }
 
@@ -286,6 +316,12 @@ func (w *World) rulesParsePkg(p *Pkg, out *[]Obligation) {
 	// R06.cut: the package's own splitter
 	if m.splitFn.Pkg() == p.P.Types {
 		ok, why := p.checkSplitCouple(p.FuncObj[m.splitFn])
+		if !ok {
+			// not the recognised loop: evaluate the split statement itself
+			if ok2, why2, decided := p.checkCutBounded(m); decided {
+				ok, why = ok2, why2
+			}
+		}
 		add(ok, "R06.cut", m.splitFn.Name(), p.FuncObj[m.splitFn], why)
 	} else {
 		ok := len(m.splitAs.Rhs[0].(*ast.CallExpr).Args) == 2
@@ -1022,4 +1058,98 @@ func suffixOnly(info *types.Info, body ast.Node, sv types.Object) bool {
 		return true
 	})
 	return ok
+}
+
+// checkCutBounded evaluates the split statement `abv, value[, …] := f(elem[, …])`
+// with the fragment evaluator for every string of length ≤ 6 over the
+// alphabet {a, b, ':', '/'} as the element and compares the two halves with
+// "before / after the first ':'". This is a bounded check (it does not cover
+// longer strings); it is used only when the splitter is not in the
+// recognised shape, to avoid reporting an equivalent splitter as undecided.
+func (p *Pkg) checkCutBounded(m *parseModel) (ok bool, why string, decided bool) {
+	info := p.Info
+	call, isCall := m.splitAs.Rhs[0].(*ast.CallExpr)
+	if !isCall {
+		return false, "", false
+	}
+	// the element: the one non-constant (string) argument
+	elemIdx := -1
+	args := make([]Val, len(call.Args))
+	for i, a := range call.Args {
+		if tv, ok := info.Types[a]; ok && tv.Value != nil {
+			if v, ok := constVal(tv); ok {
+				args[i] = v
+				continue
+			}
+		}
+		if tv, ok := info.Types[a]; ok {
+			if b, ok := tv.Type.Underlying().(*types.Basic); ok && b.Info()&types.IsString != 0 && elemIdx < 0 {
+				elemIdx = i
+				continue
+			}
+		}
+		return false, "", false
+	}
+	fn := calleeOf(info, call)
+	if fn == nil || fn.Pkg() != p.P.Types || p.FuncObj[fn] == nil {
+		return false, "", false
+	}
+	sfd := p.FuncObj[fn]
+	ai, vi := -1, -1
+	for i, l := range m.splitAs.Lhs {
+		switch identObj(info, l) {
+		case m.abvObj:
+			ai = i
+		case m.valObj:
+			vi = i
+		}
+	}
+	if elemIdx < 0 || ai < 0 || vi < 0 {
+		return false, "", false
+	}
+	alphabet := []byte{'a', 'b', ':', '/'}
+	n := 0
+	var cur []byte
+	var rec func() (bool, string, bool)
+	rec = func() (bool, string, bool) {
+		s := string(cur)
+		ce := newCEnv(p, nil)
+		ce.loops = true
+		args[elemIdx] = vStr(s)
+		v, err := ce.callFunc(sfd, append([]Val(nil), args...), call)
+		if err != nil {
+			if pe, isPanic := err.(*panicked); isPanic {
+				return false, fmt.Sprintf("the split of %q panics: %s", s, pe.msg), true
+			}
+			return false, "", false
+		}
+		if v.K != VTuple || ai >= len(v.T) || vi >= len(v.T) || v.T[ai].K != VStr || v.T[vi].K != VStr {
+			return false, "", false
+		}
+		wa, wv := s, ""
+		if i := strings.IndexByte(s, ':'); i >= 0 {
+			wa, wv = s[:i], s[i+1:]
+		}
+		n++
+		if v.T[ai].S != wa || v.T[vi].S != wv {
+			return false, fmt.Sprintf("the element %q is split into (%q, %q), expected (%q, %q): the value or the abbreviation is read from the wrong part", s, v.T[ai].S, v.T[vi].S, wa, wv), true
+		}
+		if len(cur) == 6 {
+			return true, "", true
+		}
+		for _, c := range alphabet {
+			cur = append(cur, c)
+			ok, why, dec := rec()
+			cur = cur[:len(cur)-1]
+			if !ok || !dec {
+				return ok, why, dec
+			}
+		}
+		return true, "", true
+	}
+	ok, why, decided = rec()
+	if ok && decided {
+		why = fmt.Sprintf("(bounded check) the split statement yields (before, after) the first ':' for each of the %d strings of length ≤ 6 over {a, b, ':', '/'}", n)
+	}
+	return ok, why, decided
 }
